@@ -823,6 +823,458 @@ def check_C12(tier):
     return res.finish('./vcheck C12 --tier ' + tier)
 
 
+def front_files():
+    d = os.path.join(VERIF, 'corpus', 'front')
+    return [os.path.join(d, f) for f in sorted(os.listdir(d)) if f.endswith('.rs')]
+
+
+def all_caps_with_dfa(tier, res, extra_files=()):
+    repo_caps, rand_caps = ce.corpora(tier, res)
+    extra = build.capture_files(list(extra_files), 'front-extra') if extra_files else []
+    return [c for c in list(repo_caps) + list(rand_caps) + list(extra) if c.panic is None and c.dfa and c.dfa.get('start') is not None and c.leaves]
+
+
+def check_C08(tier):
+    res = Result('C08', tier)
+    framework(res, ['C08_tie_iff_shared', 'C08_no_silent_choice', 'C08_tie_has_ambiguous_string'])
+    drv = build.extraction_build()
+    caps = all_caps_with_dfa(tier, res, front_files())
+    jobs = []
+    for i, c in enumerate(caps):
+        dfa = capmod.Dfa(c)
+        H = capmod.reach_hint(dfa)
+        parts = ['RH', len(H)]
+        for q, (p, u, n) in sorted(H.items()):
+            parts += [q, p, u, n]
+        jobs.append(engine.dfa_header(c) + [' '.join(map(str, parts)), 'TI %d' % i])
+    out = engine.parse_model_output(engine.run_modeldrv(drv, certs._batch(jobs)))
+    ntie = 0; nacc = 0
+    for i, c in enumerate(caps):
+        r = out.get('TI:%d' % i)
+        if r is None:
+            raise RuntimeError('no TI result for %s' % c.id)
+        reach, dfaok, tsets = r
+        res.count('definitions_explored'); res.count('dfa_states_explored', len(c.dfa['states']))
+        early = c.dfa.get('has_empty') or any(g[0] in ('nostart', 'empty') for g in c.gerrs)
+        model = set(tuple(sorted(t)) for t in tsets)
+        captured = set(tuple(sorted(g[1])) for g in c.gerrs if g[0] == 'disamb')
+        conflict_msgs = [m for m in c.cerrs if 'can match simultaneously' in m]
+        bad = None
+        if not early:
+            if model != captured:
+                bad = 'conflicts computed from the raw DFA %s, reported by the derive %s' % (sorted(model), sorted(captured))
+            elif model and c.accepted:
+                bad = 'accepted although the DFA has tie states %s' % sorted(model)
+            elif not model and conflict_msgs:
+                bad = 'conflict diagnostics without any tie state'
+            elif model:
+                # every leaf of every conflict is named by a diagnostic
+                named = ' '.join(conflict_msgs)
+                for t in model:
+                    for l in t:
+                        if c.leaves[l]['src'] not in named:
+                            bad = 'leaf %d (%s) of conflict %s is not named in the diagnostics' % (l, c.leaves[l]['src'], t)
+                want = sum(len(g[1]) for g in c.gerrs if g[0] == 'disamb')
+                if not bad and len(conflict_msgs) != want:
+                    bad = '%d conflict diagnostics for conflicts %s' % (len(conflict_msgs), sorted(captured))
+            if not reach:
+                bad = (bad or '') + ' reachability hint rejected'
+        res.oblige(bad is None)
+        if model: ntie += 1
+        if c.accepted: nacc += 1
+        if bad:
+            # witness: a string reaching a tie state
+            dfa = capmod.Dfa(c); H = capmod.reach_hint(dfa)
+            w = None
+            for q in dfa.states:
+                if dfa.win(q) == ('tie',) and (q in H):
+                    path = []; cur = q
+                    while cur in H:
+                        p, u, n = H[cur]; path.append(u); cur = p
+                    path.reverse()
+                    w = bytes(x for x in path if x < 256); break
+            res.violation(None, '%s: %s' % (c.id, bad), dict(definition=c.source, definition_id=c.id, file=c.file, ambiguous_input_hex=w.hex() if w is not None else None,
+                                                               ambiguous_input=repr(w), derive_outcome=c.outcome, derive_conflicts=sorted(captured), dfa_conflicts=sorted(model)),
+                          found_input=w is not None)
+        elif model and len(res.samples) < 3:
+            res.sample(dict(definition=c.id, conflicts=sorted(model), outcome=c.outcome))
+    res.cov['definitions_with_conflicts'] = ntie
+    res.cov['definitions_accepted'] = nacc
+    res.cov['exhaustive'] = True
+    res.cov['rule'] = ('every definition of the repo / front-end / seeded random corpora (40% of the random ones have free priorities and collide often): all states of the captured raw DFA are explored in Coq (extracted `ties`, printed by the hook without get_state_type); '
+                       'compared with the GraphError::Disambiguation sets, the accept/reject outcome and the diagnostics; reachability of tie states validated (reach_ok)')
+    res.trusted += ce.TRUSTED
+    res.assumptions += ['"some string is fully matched by patterns" is read on the captured DFA (regex-automata determinisation modelled as data)',
+                        'definitions rejected earlier for empty matches / missing universal start are outside the iff (they are rejected with another diagnostic)']
+    return res.finish('./vcheck C08 --tier ' + tier)
+
+
+def check_C09(tier):
+    import coqeval
+    res = Result('C09', tier)
+    framework(res, ['C09_complexity_le_len', 'C09_literal_never_beaten', 'C09_rule_concat', 'C09_rule_alternation', 'C09_rule_repetition', 'C09_rule_assertion'])
+    repo_caps, rand_caps = ce.corpora(tier, res)
+    extra = build.capture_files(front_files(), 'front-extra')
+    caps = [c for c in list(repo_caps) + list(rand_caps) + list(extra) if c.panic is None and c.leaves]
+    exprs = []; idx = []
+    for c in caps:
+        for l in c.leaves:
+            if l['hir'] and l['hir'] != '-':
+                exprs.append('[complexity %s]' % capmod.coq_re(capmod.parse_sexpr(l['hir'])))
+                idx.append((c, l))
+    vals = coqeval.coq_eval(exprs, 'From LogosV Require Import Regex.Re.', 'cplx', shard=max(50, len(exprs) // 16 + 1))
+    nbad = 0
+    for (c, l), v in zip(idx, vals):
+        res.count('leaves_checked')
+        bad = None
+        if v[0] != l['default_prio']:
+            bad = 'Pattern::priority() = %d, documented rule (Coq complexity of the captured HIR) = %d' % (l['default_prio'], v[0])
+        elif len(c.attrs) == len(c.leaves):
+            a = c.attrs[l['idx']]
+            if a.get('kind') == ('token' if l['lit'] else a.get('kind')) and 'lit' in a:
+                explicit = a.get('prio', '-')
+                litlen = 0 if a['lit'] == '-' else len(a['lit']) // 2
+                expected = int(explicit) if explicit.isdigit() else (2 * litlen if a['kind'] == 'token' else v[0])
+                res.count('leaf_priorities_checked_against_attribute')
+                if l['prio'] != expected:
+                    bad = 'leaf priority %d, expected %d (%s, explicit=%s)' % (l['prio'], expected, a['kind'], explicit)
+        res.oblige(bad is None)
+        if bad:
+            nbad += 1
+            if nbad <= 6:
+                res.violation(None, '%s leaf %d %s: %s' % (c.id, l['idx'], l['src'], bad), dict(definition=c.source, definition_id=c.id, leaf=l['idx'], pattern=l['src'], hir=l['hir'][:300]))
+    # end to end on accepted definitions: a literal token is never beaten on its own text by a default-priority regex
+    nb = 0
+    for c in caps:
+        if not (c.accepted and c.dfa and c.dfa.get('start') is not None and len(c.attrs) == len(c.leaves)):
+            continue
+        dfa = capmod.Dfa(c)
+        for l in c.leaves:
+            a = c.attrs[l['idx']]
+            if a.get('kind') != 'token' or a.get('icase') == '1' or a.get('lit') in (None, '-'):
+                continue
+            w = bytes.fromhex(a['lit'])
+            q = dfa.start
+            for b in w:
+                q = dfa.step(q, b)
+            for u in [256] + list(range(256)):
+                ms = dfa.match(dfa.step(q, u))
+                if l['idx'] in ms:
+                    wn = dfa.win(dfa.step(q, u))
+                    res.count('token_vs_regex_states')
+                    if wn and wn[0] == 'one' and wn[1] != l['idx']:
+                        other = c.leaves[wn[1]]; oa = c.attrs[wn[1]]
+                        if oa.get('kind') != 'token' and oa.get('prio', '-') == '-' and a.get('prio', '-') == '-':
+                            nb += 1
+                            if nb <= 4:
+                                res.violation(None, '%s: literal %r is beaten on its own text by default-priority regex %s' % (c.id, w, other['src']),
+                                              dict(definition=c.source, input_hex=w.hex(), token_leaf=l['idx'], winner_leaf=wn[1]))
+                    break
+    res.oblige(nb == 0)
+    res.cov['rule'] = ('every leaf of every definition of the corpora: Coq `complexity` of the HIR printed by the hook vs Pattern::priority(); leaf priority vs explicit priority / 2 x literal byte length '
+                       '(attributes scanned independently by the capture tool); on accepted definitions every literal token is run through the captured DFA on its own text against default-priority regexes')
+    res.trusted += ['Coq kernel + vm_compute', 'hook HIR printer (hir_sexpr) and lib/cap.py coq_re (Unicode classes truncated to 24 ranges: complexity does not depend on them)', 'tools/capture/src/attrs.rs attribute scan']
+    res.assumptions += ['Matches treats look-arounds as the empty string (over-approximation, sound for the upper bound)', 'HIR construction is regex-syntax (modelled as data)']
+    return res.finish('./vcheck C09 --tier ' + tier)
+
+
+def bisim_stage(res, drv, pairs, what):
+    """pairs: list of dict(tag, cap, leaf, ref(RefDfa-like with .states/.start), refleaf, describe, source).
+    Python BFS finds a distinguishing input or a relation hint; the extracted Coq checker validates the hint."""
+    import equiv
+    jobs = []; pend = []
+    nviol = 0
+    for k, p in enumerate(pairs):
+        d1 = capmod.Dfa(p['cap'])
+        R, dist = equiv.product(d1, p['leaf'], p['ref'], p['refleaf'])
+        res.count('language_equalities_checked')
+        if dist is not None:
+            res.oblige(False)
+            nviol += 1
+            if nviol <= 6:
+                bs, u = dist
+                q1 = d1.start; q2 = p['ref'].start
+                for b in bs:
+                    q1 = d1.step(q1, b); q2 = p['ref'].step(q2, b)
+                m1 = p['leaf'] in d1.match(d1.step(q1, u)); m2 = p['refleaf'] in p['ref'].match(p['ref'].step(q2, u))
+                res.violation(None, '%s: %s; text %r (followed by %s) is %s by the derive\'s automaton and %s by the reference' %
+                              (p['tag'], p['describe'], bs, 'end of input' if u == 256 else 'byte 0x%02x' % u, 'matched' if m1 else 'not matched', 'matched' if m2 else 'not matched'),
+                              dict(definition=p['source'], check=what, input_hex=bs.hex(), input=repr(bs), next_unit=u, derive_matches=m1, reference_matches=m2, reference=p['describe']))
+            continue
+        jobs.append(engine.dfa_header(p['cap']) + equiv.d2_lines(p['ref']) + [equiv.br_line(R), 'BS b%d %d %d' % (k, p['leaf'], p['refleaf'])])
+        pend.append((k, p))
+    out = engine.run_modeldrv(drv, certs._batch(jobs)) if jobs else []
+    ok = {}
+    for ln in out:
+        if ln.startswith('BS '):
+            _, t, v = ln.split()
+            ok[t] = v == '1'
+    for k, p in pend:
+        good = ok.get('b%d' % k, False)
+        res.oblige(good)
+        if not good:
+            res.violation(None, '%s: certificate bisim_ok rejected (%s)' % (p['tag'], p['describe']),
+                          dict(definition=p['source'], no_longer_checks='bisim_ok certificate for %s' % p['tag']), found_input=False)
+    return nviol
+
+
+def check_C10(tier):
+    import coqeval, equiv, frontgen as fg
+    res = Result('C10', tier)
+    framework(res, ['C10_escape_str_roundtrip', 'C10_escape_bytes_roundtrip', 'C10_bisim_sound'])
+    drv = build.extraction_build()
+    rng = random.Random(seed() * 31 + 10)
+    n = 60 if tier == 'quick' else 600
+    defs = []   # (name, source, kind, info)
+    for i in range(n):
+        lit = fg.random_literal(rng)
+        defs.append(('TokS%d' % i, '#[derive(Logos)] enum TokS%d { #[token(%s)] A, #[regex("[0-9]+")] N }' % (i, fg.rust_str_lit(lit)), 'tok', dict(lit=lit.encode('utf8'), bytes=False)))
+        defs.append(('TokSI%d' % i, '#[derive(Logos)] enum TokSI%d { #[token(%s, ignore(case))] A, #[regex("[0-9]+")] N }' % (i, fg.rust_str_lit(lit)), 'toki', dict(lit=lit, bytes=False)))
+        bl = fg.random_byte_literal(rng)
+        defs.append(('TokB%d' % i, '#[derive(Logos)] #[logos(utf8 = false)] enum TokB%d { #[token(%s)] A, #[regex("[0-9]+")] N }' % (i, fg.rust_bytes_lit(bl)), 'tok', dict(lit=bl, bytes=True)))
+        defs.append(('TokBI%d' % i, '#[derive(Logos)] #[logos(utf8 = false)] enum TokBI%d { #[token(%s, ignore(case))] A, #[regex("[0-9]+")] N }' % (i, fg.rust_bytes_lit(bl)), 'toki', dict(lit=bl, bytes=True)))
+    pats = ['[a-c]+x', 'ab|cd', 'k[a-z]?', 'é+', 'straße', '[^a-y]z', 'a{2,3}b', 'sS', '(?-i:a)b', 'ǆ', '[k-m]+']
+    for i, pat in enumerate(pats):
+        defs.append(('RegI%d' % i, '#[derive(Logos)] enum RegI%d { #[regex(%s, ignore(case))] A, #[token("0")] Z }' % (i, fg.rust_str_lit(pat)), 'regi', dict(pat=pat)))
+        defs.append(('SkipI%d' % i, '#[derive(Logos)] #[logos(skip(%s, ignore(case)))] enum SkipI%d { #[token("0")] Z }' % (fg.rust_str_lit(pat), i), 'skipi', dict(pat=pat)))
+    for i in range(6):
+        lit = ''.join(rng.choice('abckKzs ') for _ in range(rng.randint(1, 3)))
+        defs.append(('SkipLI%d' % i, '#[derive(Logos)] #[logos(skip(%s, ignore(case)))] enum SkipLI%d { #[token("0")] Z }' % (fg.rust_str_lit(fg.regex_escape(lit)), i), 'skipi', dict(pat=fg.regex_escape(lit))))
+    d = cache_dir('gen', 'c10-%d-%d' % (seed(), n))
+    src = os.path.join(d, 'c10.rs')
+    open(src, 'w').write('\n'.join(x[1] for x in defs) + '\n')
+    caps = {c.name: c for c in build.capture_files([src], 'c10-%d-%d' % (seed(), n))}
+    # references built without logos
+    specs = []
+    for name, source, kind, info in defs:
+        c = caps.get(name)
+        if c is None:
+            continue
+        if kind == 'toki':
+            if info['bytes']:
+                specs.append((name, 0, 0, 0, '(?i-u:' + fg.regex_escape_bytes(info['lit']) + ')'))
+            else:
+                specs.append((name, 1, 1, 0, '(?i:' + fg.regex_escape(info['lit']) + ')'))
+        elif kind in ('regi', 'skipi'):
+            specs.append((name, 1, 1, 0, '(?i:' + info['pat'] + ')'))
+    refs = fg.refdfas(specs, 'c10')
+    pairs = []
+    for name, source, kind, info in defs:
+        c = caps.get(name)
+        if c is None or c.panic is not None:
+            res.violation(None, '%s: no capture / panic' % name, dict(definition=source), found_input=False); continue
+        res.count('generated_definitions')
+        if not (c.dfa and c.dfa.get('start') is not None) or not c.leaves:
+            # a literal that the derive rejects outright is a violation only for plain tokens
+            if kind == 'tok':
+                res.violation(None, '%s: literal token rejected: %s' % (name, c.cerrs[:1]), dict(definition=source))
+            continue
+        if kind == 'tok':
+            ref = equiv.chain_dfa(info['lit'])
+            pairs.append(dict(tag=name, cap=c, leaf=0, ref=ref, refleaf=0, source=source, describe='#[token] must match exactly the bytes %r' % info['lit']))
+        else:
+            rc = refs.get(name)
+            if rc is None or not rc.dfa or rc.dfa.get('start') is None:
+                continue
+            ref = equiv.RefDfa(rc.dfa['states'], rc.dfa['start'])
+            leaf = 0
+            pairs.append(dict(tag=name, cap=c, leaf=leaf, ref=ref, refleaf=0, source=source, describe='ignore(case) must denote the regex crate\'s %s' % [sp for sp in specs if sp[0] == name][0][4]))
+    # nothing else changes: the companion leaf of TokS<i> and TokSI<i> has the same language
+    for i in range(n):
+        a, b = caps.get('TokS%d' % i), caps.get('TokSI%d' % i)
+        if a and b and a.dfa and b.dfa and a.dfa.get('start') is not None and b.dfa.get('start') is not None and len(a.leaves) == 2 and len(b.leaves) == 2:
+            pairs.append(dict(tag='TokSI%d-companion' % i, cap=b, leaf=1, ref=equiv.RefDfa(a.dfa['states'], a.dfa['start']), refleaf=1, source=b.source,
+                              describe='ignore(case) on one token must not change the other pattern'))
+    bisim_stage(res, drv, pairs, 'C10')
+    # K8: Literal::escape(true) of the real code vs the Coq model, on the generated literals
+    lines = []; exprs = []; lits = []
+    for name, source, kind, info in defs:
+        if kind in ('tok', 'toki') and 'lit' in info:
+            if info['bytes']:
+                tok = fg.rust_bytes_lit(info['lit']); bs = info['lit']; fn = 'escape_bytes'
+            else:
+                lit = info['lit'] if isinstance(info['lit'], str) else info['lit'].decode('utf8')
+                tok = fg.rust_str_lit(lit); bs = lit.encode('utf8'); fn = 'escape_str'
+            lines.append('%s %s 1' % (name, tok.encode('utf8').hex())); lits.append((name, bs, fn))
+            exprs.append('%s %s' % (fn, coqeval.nlist(bs)))
+    real = fg.front_tool('escape', lines)
+    model = coqeval.coq_eval(exprs, 'From LogosV Require Import Front.Escape.', 'esc')
+    nb = 0
+    for (name, bs, fn), m in zip(lits, model):
+        r = real.get(name, '')
+        exp = 'ok ' + (bytes(m).hex() or '-')
+        res.count('escape_cases')
+        if r != exp:
+            nb += 1
+            if nb <= 4:
+                res.violation(None, 'Literal::escape(true) of %r: real %s, model %s' % (bs, r, exp), dict(literal_hex=bs.hex(), kind=fn, observed=r, expected=exp,
+                                                                                                        no_longer_checks='correspondence K8 Literal::escape vs Front.Escape.%s' % fn), found_input=False)
+    res.oblige(nb == 0)
+    res.cov['rule'] = ('seeded literals over every regex metacharacter, cased ASCII, characters with non-trivial simple case folding (K sign, long s, sigma, dz digraph, dotted/dotless i), 3- and 4-byte characters, and for byte strings all of 0x80..0xFF: '
+                       'plain #[token] vs the chain automaton of its bytes; ignore(case) on token / regex / skip vs the DFA regex-automata builds for (?i:escaped) without any logos code; companion leaf unchanged; '
+                       'Literal::escape vs Front.Escape by vm_compute')
+    res.trusted += ce.TRUSTED + ['tools/capture refdfa (reference DFAs: regex-syntax + regex-automata only)', 'lib/frontgen.py regex_escape (independent escape for the reference pattern)']
+    res.assumptions += ['Unicode simple case folding tables and the regex grammar are regex-syntax data (not modelled); only Logos glue is proved, the composition is decided per generated case by bisim_ok']
+    return res.finish('./vcheck C10 --tier ' + tier)
+
+
+def py_inline(subdefs, pattern):
+    """Independent inliner: subdefs [(name, src, unicode)] in order; returns pattern with every (?&name)
+    replaced by a non-capturing group holding the (already inlined) subpattern source with its own unicode flag.
+    None when a name is undefined at its point of use."""
+    import re as _re
+    env = {}
+    ok = True
+
+    def expand(text):
+        nonlocal ok
+        def rep(m):
+            nonlocal ok
+            if m.group(1) not in env:
+                ok = False
+                return ''
+            return env[m.group(1)]
+        return _re.sub(r'\(\?&([0-9a-zA-Z_]+)\)', rep, text)
+    for name, src, uni in subdefs:
+        ok = True
+        t = expand(src)
+        if ok:
+            env[name] = '(?%s:%s)' % ('u' if uni else '-u', t)
+    ok = True
+    out = expand(pattern)
+    return out if ok else None
+
+
+C11_CASES = [
+    # (subpatterns [(name, src, is_str)], [patterns])
+    ([('alt', 'a|b', True)], ['(?&alt)c', 'x(?&alt)', '(?&alt)+', 'x(?&alt)y', '((?&alt)c)+d']),
+    ([('ci', '(?i)x', True)], ['(?&ci)y', 'y(?&ci)', '(?&ci)(?&ci)z']),
+    ([('dot', '(?s).', True)], ['a(?&dot)b', '(?&dot)\\n']),
+    ([('d', '[0-9]', True), ('dd', '(?&d)(?&d)', True), ('date', '(?&dd)-(?&dd)', True)], ['(?&date)', 'on (?&date)!', '(?&d)+x', '(?&dd)|(?&d)a']),
+    ([('lazy', 'a+?', True)], ['(?&lazy)b', '(?&lazy)']),
+    ([('anch', 'a$', True)], ['(?&anch)', 'b(?&anch)']),
+    ([('grk', '\\p{Greek}+', True)], ['(?&grk)!', '<(?&grk)>']),
+    ([('x_1', 'q', True), ('X1', 'r', True)], ['(?&x_1)(?&X1)', '(?&X1)|(?&x_1)s']),
+    ([('emp', 'a?', True)], ['b(?&emp)c']),
+    ([('cls', '[a-c&&[^b]]', True)], ['(?&cls)+d']),
+]
+C11_BYTE_CASES = [
+    ([('hi', b'[\x80-\xff]', False)], ['a(?&hi)', '(?&hi)+z']),
+    ([('b1', b'\xce', False), ('b2', b'(?&b1)\xbb', False)], ['(?&b2)x']),
+    ([('mix', 'é', True), ('raw', b'\xc3', False)], ['(?&mix)a', '(?&raw)\\xa9']),
+]
+C11_UNDEFINED = [
+    ([('a', 'x', True)], '(?&b)'),
+    ([('a', '(?&later)', True), ('later', 'y', True)], '(?&a)'),
+    ([], '(?&nothing)z'),
+    ([('a', 'x', True)], 'q(?&a)(?&A)'),
+]
+
+
+def check_C11(tier):
+    import coqeval, equiv, frontgen as fg
+    res = Result('C11', tier)
+    framework(res, ['C11_subst_group_free', 'C11_subst_prefix_copied', 'C11_subst_at_group', 'C11_subst_undefined', 'C11_bisim_sound'])
+    drv = build.extraction_build()
+    rng = random.Random(seed() * 37 + 11)
+    cases = []
+    for subs, pats in C11_CASES:
+        for p in pats:
+            cases.append((subs, p, True))
+    for subs, pats in C11_BYTE_CASES:
+        for p in pats:
+            cases.append((subs, p, False))
+    # random combinations of references inside small contexts
+    ctxs = ['%s', 'a%sb', '(%s)+', '%s|z', 'x(%s|y)', '%s%s']
+    for _ in range(20 if tier == 'quick' else 200):
+        subs, pats = rng.choice(C11_CASES)
+        refs = ['(?&%s)' % n for n, _, _ in subs]
+        ctx = rng.choice(ctxs)
+        p = ctx % tuple(rng.choice(refs) for _ in range(ctx.count('%s')))
+        cases.append((subs, p, True))
+    defs = []
+    for i, (subs, pat, strmode) in enumerate(cases):
+        attrs = ''.join('#[logos(subpattern %s = %s)] ' % (n, fg.rust_str_lit(s) if isinstance(s, str) else fg.rust_bytes_lit(s)) for n, s, _ in subs)
+        mode = '' if strmode else '#[logos(utf8 = false)] '
+        lit = fg.rust_str_lit(pat)
+        defs.append(('Sp%d' % i, '#[derive(Logos)] %s%senum Sp%d { #[regex(%s)] A, #[token("0")] Z }' % (mode, attrs, i, lit), subs, pat, strmode))
+    und = []
+    for i, (subs, pat) in enumerate(C11_UNDEFINED):
+        attrs = ''.join('#[logos(subpattern %s = %s)] ' % (n, fg.rust_str_lit(s)) for n, s, _ in subs)
+        und.append(('Und%d' % i, '#[derive(Logos)] %senum Und%d { #[regex(%s)] A }' % (attrs, i, fg.rust_str_lit(pat))))
+    d = cache_dir('gen', 'c11-%d-%s' % (seed(), tier))
+    src = os.path.join(d, 'c11.rs')
+    open(src, 'w').write('\n'.join([x[1] for x in defs] + [x[1] for x in und]) + '\n')
+    caps = {c.name: c for c in build.capture_files([src], 'c11-%d-%s' % (seed(), tier))}
+    specs = []
+    for name, source, subs, pat, strmode in defs:
+        tosrc = lambda s: s if isinstance(s, str) else fg.regex_escape_bytes(s).replace('\\\\x', '\\x') if False else (s if isinstance(s, str) else ''.join(chr(b) if b <= 127 else '\\x%02X' % b for b in s))
+        inl = py_inline([(n, tosrc(s), u) for n, s, u in subs], pat)
+        if inl is not None:
+            specs.append((name, 1 if strmode else 0, 1, 0, inl))
+    refs = fg.refdfas(specs, 'c11')
+    pairs = []
+    for name, source, subs, pat, strmode in defs:
+        c = caps.get(name)
+        res.count('generated_definitions')
+        if c is None or c.panic is not None:
+            res.violation(None, '%s: no capture / panic' % name, dict(definition=source), found_input=False); continue
+        rc = refs.get(name)
+        ref_ok = rc is not None and rc.dfa and rc.dfa.get('start') is not None and rc.outcome == 'accepted'
+        if not (c.dfa and c.dfa.get('start') is not None and c.leaves):
+            # rejected by the derive: fine only if the reference cannot be built either, or for a reason outside C11 (empty match, utf8)
+            other = any(('empty string' in m or 'UTF-8' in m or 'greedy' in m) for m in c.cerrs)
+            if ref_ok and not other:
+                res.violation(None, '%s: rejected (%s) although the inlined pattern %r is a valid regex' % (name, c.cerrs[:1], [sp for sp in specs if sp[0] == name][0][4]), dict(definition=source))
+            continue
+        if not ref_ok:
+            continue
+        inl = [sp for sp in specs if sp[0] == name][0][4]
+        pairs.append(dict(tag=name, cap=c, leaf=0, ref=equiv.RefDfa(rc.dfa['states'], rc.dfa['start']), refleaf=0, source=source,
+                          describe='pattern %r with subpatterns must denote the inlined pattern %r' % (pat, inl)))
+    bisim_stage(res, drv, pairs, 'C11')
+    for name, source in und:
+        c = caps.get(name)
+        ok = c is not None and c.panic is None and not c.accepted and any('not found' in m for m in c.cerrs)
+        res.oblige(ok); res.count('undefined_reference_cases')
+        if not ok:
+            res.violation(None, '%s: reference to an undefined subpattern is not reported (outcome %s, %s)' % (name, c.outcome if c else None, c.cerrs[:2] if c else None), dict(definition=source))
+    # K8: the real Subpatterns::new + subst_subpatterns vs Front.Subpat (vm_compute)
+    lines = []; exprs = []; meta = []
+    allcases = [(subs, pat, sm) for _, _, subs, pat, sm in defs] + [(subs, pat, True) for subs, pat in C11_UNDEFINED]
+    for i, (subs, pat, strmode) in enumerate(allcases):
+        parts = ['k%d' % i, '1' if strmode else '0', pat.encode('utf8').hex()]
+        cd = []
+        for n, s, u in subs:
+            tok = fg.rust_str_lit(s) if isinstance(s, str) else fg.rust_bytes_lit(s)
+            parts += [n, tok.encode('utf8').hex()]
+            srcb = s.encode('utf8') if isinstance(s, str) else ''.join(chr(b) if b <= 127 else '\\x%02X' % b for b in s).encode('utf8')
+            cd.append('(%s, %s, %s)' % (coqeval.nlist(n.encode()), 'true' if u else 'false', coqeval.nlist(srcb)))
+        lines.append(' '.join(parts))
+        pb = pat.encode('utf8')
+        exprs.append('match subst %d (build_env [%s] []) %s with Some t => 1 :: t | None => [0] end' % (len(pb) + 1, ';'.join(cd), coqeval.nlist(pb)))
+        meta.append((subs, pat))
+    real = fg.front_tool('subst', lines)
+    model = coqeval.coq_eval(exprs, 'From LogosV Require Import Front.Subpat.', 'subst')
+    nb = 0
+    for i, ((subs, pat), m) in enumerate(zip(meta, model)):
+        r = real.get('k%d' % i, '')
+        exp = 'none -' if m[0] == 0 else 'some ' + (bytes(m[1:]).hex() or '-')
+        res.count('subst_cases')
+        if not r.startswith(exp):
+            nb += 1
+            if nb <= 4:
+                res.violation(None, 'subst_subpatterns(%r) with %r: real %s, model %s' % (pat, subs, r, exp),
+                              dict(pattern=pat, subpatterns=repr(subs), observed=r, expected=exp, no_longer_checks='correspondence K8 subst_subpatterns vs Front.Subpat.subst'), found_input=False)
+    res.oblige(nb == 0)
+    res.cov['rule'] = ('subpatterns with top-level alternation, inline flags, lazy repetition, end assertion, Unicode class, byte-string subpatterns, chains three deep, references at start / middle / end / under repetition, '
+                       'random combinations: captured leaf DFA vs the DFA regex-automata builds for the pattern inlined by an independent inliner (lib/checks.py py_inline); undefined references must be compile errors; '
+                       'subst_subpatterns vs Front.Subpat by vm_compute')
+    res.trusted += ce.TRUSTED + ['tools/capture refdfa', 'lib/checks.py py_inline (the specification of textual inclusion)']
+    res.assumptions += ['that (?u:a|b)c groups as intended is regex-syntax grammar, exercised through bisim_ok, not proved']
+    return res.finish('./vcheck C11 --tier ' + tier)
+
+
 def setup():
     ok, msg = build.coq_build()
     if not ok:
